@@ -340,3 +340,30 @@ Proof.
   - unfold is_running in Hrun. destruct (j_start j); [|done]. rewrite H in Hrun. by rewrite andb_false_r in Hrun.
   - unfold is_running in Hrun. destruct (j_start j); [|done]. by rewrite H in Hrun.
 Qed.
+
+(** the deadline of Shutdown matters as long as ANY job runs — also a job whose pipeline a reload has removed from the
+    definitions (the poll of Shutdown ranges over jobsByPipeline, not over the defined pipelines; seeded change C11-I) *)
+Lemma shutdown_force_enabled s id j :
+  st_shutg s = Some false → get_job s id = Some j → j_removed j = false → is_running j = true →
+  ∃ s', do_shutdown_force s = Some s'.
+Proof.
+  intros Hg Hj Hrm Hrun. unfold do_shutdown_force. rewrite Hg.
+  assert (Ha : any_running s = true).
+  { unfold any_running. apply existsb_exists. exists j. split.
+    - apply elem_of_list_In. unfold get_job in Hj. by eapply elem_of_list_lookup_2.
+    - by rewrite Hrm, Hrun. }
+  rewrite Ha. eauto.
+Qed.
+
+(** and while a job runs an unforced Shutdown cannot return *)
+Lemma shutdown_no_return_while_running s id j :
+  st_shutg s = Some false → get_job s id = Some j → j_removed j = false → is_running j = true →
+  do_shutdown_return s = None.
+Proof.
+  intros Hg Hj Hrm Hrun. unfold do_shutdown_return. rewrite Hg.
+  assert (Ha : any_running s = true).
+  { unfold any_running. apply existsb_exists. exists j. split.
+    - apply elem_of_list_In. unfold get_job in Hj. by eapply elem_of_list_lookup_2.
+    - by rewrite Hrm, Hrun. }
+  rewrite Ha. done.
+Qed.
